@@ -11,6 +11,11 @@
 (* each at most once per call, in FIFO order within a prototype, and       *)
 (* leaves every other event untouched, intact and in place.  Which of the  *)
 (* callable prototypes a call gets to, and in what order, is left open.    *)
+(* Listeners registered through CounterRemover (count c) run on exactly    *)
+(* their first max(c,1) triggers, those registered through                 *)
+(* ConditionalRemover run up to and including the trigger at which their   *)
+(* condition (asked exactly once per trigger, before the listener) holds - *)
+(* the harness's condition holds at its second evaluation (C16).           *)
 (***************************************************************************)
 EXTENDS Naturals, Sequences, FiniteSets, TLC, Json, IOUtils
 
@@ -21,10 +26,10 @@ Accepts == <<1, 2, 2, 3, 4, 5, 2>>
 Callable == <<{1}, {2}, {3}, {4}, {5}, {2, 5}>>
 HasPayload(p) == p \in {3, 4, 5}
 
-VARIABLES lst, pending, exp, proc, ncb, l
-vars == <<lst, pending, exp, proc, ncb, l>>
+VARIABLES lst, kind, pending, exp, proc, ncb, l
+vars == <<lst, kind, pending, exp, proc, ncb, l>>
 NoProc == [on |-> FALSE, mode |-> 0, shape |-> 0, seen |-> {}, hit |-> FALSE, cur |-> 0, any |-> FALSE]
-Init == lst = [p \in Protos |-> <<>>] /\ pending = <<>> /\ exp = <<>> /\ proc = NoProc /\ ncb = 0 /\ l = 1
+Init == lst = [p \in Protos |-> <<>>] /\ kind = <<>> /\ pending = <<>> /\ exp = <<>> /\ proc = NoProc /\ ncb = 0 /\ l = 1
 E == TraceLog[l]
 Is(e) == l <= Len(TraceLog) /\ E.e = e /\ l' = l + 1
 InSeq(s, x) == \E i \in 1..Len(s) : s[i] = x
@@ -34,54 +39,78 @@ Idle == exp = <<>> /\ ~proc.on
 NCb(ls) == Len(ls[1]) + Len(ls[2]) + Len(ls[3]) + Len(ls[4]) + Len(ls[5])
 NPay(pd) == Len(SelectSeq(pd, LAMBDA e : HasPayload(e.p)))
 Ledger == E.lv = NCb(lst') /\ E.pv = NPay(pending')
-\* invocations owed by one dispatch of prototype p with argument value v (prototype 1 has no arguments: the callbacks see 0)
-Owes(p, v) == [i \in 1..Len(lst[p]) |-> <<lst[p][i], p, IF p = 1 THEN 0 ELSE v>>]
-RECURSIVE OwesAll(_)
-OwesAll(evs) == IF evs = <<>> THEN <<>> ELSE Owes(Head(evs).p, Head(evs).uid) \o OwesAll(Tail(evs))
+\* calls owed by one dispatch of prototype p with argument value v (prototype 1 has no arguments: the callbacks see 0):
+\* <<0, callback, p, value>> a listener runs, <<1, callback, p, 0>> the condition of a ConditionalRemover listener is asked first
+RECURSIVE OwesOf(_,_,_,_)
+OwesOf(s, p, v, kd) == IF s = <<>> THEN <<>>
+                       ELSE (IF kd[Head(s)].k = "cond" THEN << <<1, Head(s), p, 0>> >> ELSE <<>>) \o << <<0, Head(s), p, IF p = 1 THEN 0 ELSE v>> >> \o OwesOf(Tail(s), p, v, kd)
+\* one trigger of prototype p: every self-removing listener of that list counts down and detaches itself when it reaches zero
+Trig(p, ls, kd) == LET S == {n \in 1..Len(kd) : InSeq(ls[p], n) /\ kd[n].k # "plain"} IN
+                   [ls |-> [ls EXCEPT ![p] = SelectSeq(@, LAMBDA x : x \notin S \/ kd[x].left > 1)],
+                    kd |-> [n \in 1..Len(kd) |-> IF n \in S THEN [kd[n] EXCEPT !.left = @ - 1] ELSE kd[n]]]
+\* a batch of queued events dispatched one after the other
+RECURSIVE Batch(_,_,_)
+Batch(evs, ls, kd) == IF evs = <<>> THEN [exp |-> <<>>, ls |-> ls, kd |-> kd]
+                      ELSE LET e == Head(evs)  t == Trig(e.p, ls, kd)  r == Batch(Tail(evs), t.ls, t.kd) IN
+                           [exp |-> OwesOf(ls[e.p], e.p, e.uid, kd) \o r.exp, ls |-> r.ls, kd |-> r.kd]
+Plain == [k |-> "plain", left |-> 0]
+Before(s, h, n) == IF InSeq(s, h) THEN SubSeq(s, 1, Pos(s, h) - 1) \o <<n>> \o SubSeq(s, Pos(s, h), Len(s)) ELSE Append(s, n)
 
-EvAppend == /\ Is("al") /\ Idle /\ E.r = ncb + 1 /\ E.b = Binds[E.a] /\ lst' = [lst EXCEPT ![Binds[E.a]] = Append(@, ncb + 1)] /\ ncb' = ncb + 1
-            /\ UNCHANGED <<pending, exp, proc>> /\ Ledger
-EvPrepend == /\ Is("pl") /\ Idle /\ E.r = ncb + 1 /\ E.b = Binds[E.a] /\ lst' = [lst EXCEPT ![Binds[E.a]] = <<ncb + 1>> \o @] /\ ncb' = ncb + 1
-             /\ UNCHANGED <<pending, exp, proc>> /\ Ledger
-EvInsert == /\ Is("il") /\ Idle /\ E.r = ncb + 1 /\ E.b = Binds[E.a]
-            /\ LET p == Binds[E.a]  s == lst[p] IN
-               lst' = [lst EXCEPT ![p] = IF InSeq(s, E.o) THEN SubSeq(s, 1, Pos(s, E.o) - 1) \o <<ncb + 1>> \o SubSeq(s, Pos(s, E.o), Len(s)) ELSE Append(s, ncb + 1)]
-            /\ ncb' = ncb + 1 /\ UNCHANGED <<pending, exp, proc>> /\ Ledger
+\* a callback of shape E.a is added (position: where == 0 back, 1 front, 2 before E.o); it must land in prototype Binds[E.a]
+Add(p, where, kd) == /\ Idle /\ E.r = ncb + 1 /\ E.b = p
+                     /\ lst' = [lst EXCEPT ![p] = IF where = 0 THEN Append(@, ncb + 1) ELSE IF where = 1 THEN <<ncb + 1>> \o @ ELSE Before(@, E.o, ncb + 1)]
+                     /\ kind' = Append(kind, kd) /\ ncb' = ncb + 1 /\ UNCHANGED <<pending, exp, proc>> /\ Ledger
+EvAppend == Is("al") /\ Add(Binds[E.a], 0, Plain)
+EvPrepend == Is("pl") /\ Add(Binds[E.a], 1, Plain)
+EvInsert == Is("il") /\ Add(Binds[E.a], 2, Plain)
+\* CounterRemover (trigger count E.u) / ConditionalRemover
+CtrOf(c) == [k |-> "ctr", left |-> IF c < 1 THEN 1 ELSE c]
+CondK == [k |-> "cond", left |-> 2]
+EvAppendCtr == Is("ac") /\ Add(Binds[E.a], 0, CtrOf(E.u))
+EvPrependCtr == Is("pc") /\ Add(Binds[E.a], 1, CtrOf(E.u))
+EvInsertCtr == Is("ic") /\ Add(Binds[E.a], 2, CtrOf(E.u))
+EvAppendCond == Is("ak") /\ Add(1, 0, CondK)
+EvPrependCond == Is("qk") /\ Add(1, 1, CondK)
+EvInsertCond == Is("ik") /\ Add(1, 2, CondK)
 EvRemove == /\ Is("rl") /\ Idle /\ E.r = (IF \E p \in Protos : InSeq(lst[p], E.a) THEN 1 ELSE 0)
-            /\ lst' = [p \in Protos |-> Without(lst[p], E.a)] /\ UNCHANGED <<pending, exp, proc, ncb>> /\ Ledger
+            /\ lst' = [p \in Protos |-> Without(lst[p], E.a)] /\ UNCHANGED <<kind, pending, exp, proc, ncb>> /\ Ledger
 \* invocation / dispatch with argument shape E.a and value E.u
-EvInvokeBegin == /\ Is("ib") /\ Idle /\ exp' = Owes(Accepts[E.a], E.u) /\ UNCHANGED <<lst, pending, proc, ncb>>
-EvEnter == /\ Is("en") /\ exp # <<>> /\ Head(exp) = <<E.a, E.o, E.u>> /\ E.b = 1 /\ exp' = Tail(exp) /\ UNCHANGED <<lst, pending, proc, ncb>>
-EvInvokeEnd == /\ Is("ie") /\ exp = <<>> /\ ~proc.on /\ UNCHANGED <<lst, pending, exp, proc, ncb>> /\ Ledger
-EvEnqueue == /\ Is("nq") /\ Idle /\ pending' = Append(pending, [uid |-> E.u, p |-> Accepts[E.a]]) /\ UNCHANGED <<lst, exp, proc, ncb>> /\ Ledger
+EvInvokeBegin == /\ Is("ib") /\ Idle
+                 /\ LET p == Accepts[E.a]  t == Trig(p, lst, kind) IN exp' = OwesOf(lst[p], p, E.u, kind) /\ lst' = t.ls /\ kind' = t.kd
+                 /\ UNCHANGED <<pending, proc, ncb>>
+EvEnter == /\ Is("en") /\ exp # <<>> /\ Head(exp) = <<0, E.a, E.o, E.u>> /\ E.b = 1 /\ exp' = Tail(exp) /\ UNCHANGED <<lst, kind, pending, proc, ncb>>
+EvCondAsked == /\ Is("cq") /\ exp # <<>> /\ Head(exp) = <<1, E.a, E.o, E.u>> /\ exp' = Tail(exp) /\ UNCHANGED <<lst, kind, pending, proc, ncb>>
+EvInvokeEnd == /\ Is("ie") /\ exp = <<>> /\ ~proc.on /\ UNCHANGED <<lst, kind, pending, exp, proc, ncb>> /\ Ledger
+EvEnqueue == /\ Is("nq") /\ Idle /\ pending' = Append(pending, [uid |-> E.u, p |-> Accepts[E.a]]) /\ UNCHANGED <<lst, kind, exp, proc, ncb>> /\ Ledger
 \* process (1) / processOne (2): the taken events are dispatched in order; processIf (3) with predicate shape E.b
 EvProcessBegin == /\ Is("pb") /\ Idle
-                  /\ IF E.a = 3 THEN proc' = [NoProc EXCEPT !.on = TRUE, !.mode = 3, !.shape = E.b] /\ UNCHANGED <<exp, pending>>
-                     ELSE LET batch == IF E.a = 2 THEN (IF pending = <<>> THEN <<>> ELSE <<Head(pending)>>) ELSE pending IN
+                  /\ IF E.a = 3 THEN proc' = [NoProc EXCEPT !.on = TRUE, !.mode = 3, !.shape = E.b] /\ UNCHANGED <<exp, pending, lst, kind>>
+                     ELSE LET batch == IF E.a = 2 THEN (IF pending = <<>> THEN <<>> ELSE <<Head(pending)>>) ELSE pending
+                              r == Batch(batch, lst, kind) IN
                           /\ proc' = [NoProc EXCEPT !.on = TRUE, !.mode = E.a, !.any = batch # <<>>]
-                          /\ exp' = OwesAll(batch)
+                          /\ exp' = r.exp /\ lst' = r.ls /\ kind' = r.kd
                           /\ pending' = IF E.a = 2 THEN (IF pending = <<>> THEN <<>> ELSE Tail(pending)) ELSE <<>>
-                  /\ UNCHANGED <<lst, ncb>>
+                  /\ UNCHANGED ncb
 \* the predicate is asked about event E.u as prototype E.o: callable prototype, not yet examined in this call, FIFO within its prototype
 EvPredBegin == /\ Is("qb") /\ proc.on /\ proc.mode = 3 /\ proc.cur = 0 /\ exp = <<>>
                /\ \E i \in 1..Len(pending) :
                     /\ pending[i].uid = E.u /\ pending[i].p = E.o /\ E.o \in Callable[proc.shape] /\ E.u \notin proc.seen /\ E.b = 1
                     /\ \A j \in 1..(i - 1) : pending[j].p = E.o => pending[j].uid \in proc.seen
                /\ proc' = [proc EXCEPT !.cur = E.u, !.seen = @ \cup {E.u}]
-               /\ UNCHANGED <<lst, pending, exp, ncb>>
+               /\ UNCHANGED <<lst, kind, pending, exp, ncb>>
 EvPredEnd == /\ Is("qe") /\ proc.on /\ proc.cur # 0
              /\ LET i == CHOOSE j \in 1..Len(pending) : pending[j].uid = proc.cur IN
-                IF E.r = 1 THEN /\ exp' = Owes(pending[i].p, pending[i].uid)
+                IF E.r = 1 THEN /\ LET r == Batch(<<pending[i]>>, lst, kind) IN exp' = r.exp /\ lst' = r.ls /\ kind' = r.kd
                                 /\ pending' = SubSeq(pending, 1, i - 1) \o SubSeq(pending, i + 1, Len(pending))
                                 /\ proc' = [proc EXCEPT !.cur = 0, !.any = TRUE]
-                ELSE UNCHANGED <<exp, pending>> /\ proc' = [proc EXCEPT !.cur = 0]
-             /\ UNCHANGED <<lst, ncb>>
+                ELSE UNCHANGED <<exp, pending, lst, kind>> /\ proc' = [proc EXCEPT !.cur = 0]
+             /\ UNCHANGED ncb
 EvProcessEnd == /\ Is("pe") /\ proc.on /\ proc.cur = 0 /\ exp = <<>> /\ E.a = proc.mode /\ E.r = (IF proc.any THEN 1 ELSE 0)
-                /\ proc' = NoProc /\ UNCHANGED <<lst, pending, exp, ncb>> /\ Ledger
+                /\ proc' = NoProc /\ UNCHANGED <<lst, kind, pending, exp, ncb>> /\ Ledger
 EvReset == /\ Is("rs") /\ Idle /\ E.lv = 0 /\ E.pv = 0
-           /\ lst' = [p \in Protos |-> <<>>] /\ pending' = <<>> /\ exp' = <<>> /\ proc' = NoProc /\ ncb' = 0
+           /\ lst' = [p \in Protos |-> <<>>] /\ kind' = <<>> /\ pending' = <<>> /\ exp' = <<>> /\ proc' = NoProc /\ ncb' = 0
 
-Next == EvAppend \/ EvPrepend \/ EvInsert \/ EvRemove \/ EvInvokeBegin \/ EvEnter \/ EvInvokeEnd \/ EvEnqueue
+Next == EvAppend \/ EvPrepend \/ EvInsert \/ EvAppendCtr \/ EvPrependCtr \/ EvInsertCtr \/ EvAppendCond \/ EvPrependCond \/ EvInsertCond \/ EvCondAsked \/ EvRemove \/ EvInvokeBegin \/ EvEnter \/ EvInvokeEnd \/ EvEnqueue
         \/ EvProcessBegin \/ EvPredBegin \/ EvPredEnd \/ EvProcessEnd \/ EvReset
 Report == IF TLCGet("stats").diameter - 1 = Len(TraceLog) THEN TRUE
           ELSE PrintT(<<"REJECTED", TLCGet("stats").diameter, Len(TraceLog)>>) /\ FALSE
